@@ -279,4 +279,38 @@ def selectTSDB (seekFixed dedupOn : Bool) (rl : List String) (qmint qmaxt : Int)
              else selectRaw qmint qmaxt { rid := 0, chunks := reps.flatMap (·.chunks) }
     r.map fun v => (showLbls ls, v)).foldr insertByName []
 
+/-! ### the series-SET level of the penalty dedup: `dedupSeriesSet` (pkg/dedup/iter.go)
+
+  `dedup.NewSeriesSet` receives the series of the stores in label order, every replica label
+  already removed (stores / proxy specification above), and groups ADJACENT series with EQUAL
+  label sets (`labels.Equal(s.lset, nextLset)` — equality of the label sets, not of a digest) into
+  one output series: a single one is returned as it is, several go through `newDedupSeries`. -/
+
+/-- a label set as `labels.Labels` holds it: sorted by name -/
+def normLbls (ls : List Lbl) : List Lbl := extendLabels ls []
+
+/-- `dedupSeriesSet.Next`/`next`: maximal runs of adjacent series with equal label sets -/
+def groupAdj : List (List Lbl × List Sample) → List (List Lbl × List (List Sample))
+  | [] => []
+  | (ls, sm) :: rest =>
+    match groupAdj rest with
+    | (ls', reps) :: gs => if ls = ls' then (ls, sm :: reps) :: gs else (ls, [sm]) :: (ls', reps) :: gs
+    | [] => [(ls, [sm])]
+
+/-- the label sets under which the input series reach `dedup.NewSeriesSet` -/
+def stripAll (rl : List String) (series : List (List Lbl × List Sample)) : List (List Lbl × List Sample) :=
+  series.map fun s => (normLbls (rmLabels rl s.1), s.2)
+
+/-- `dedupSeriesSet.At().Iterator(nil)` of one group -/
+def groupIt (fixed : Bool) (f : String) (reps : List (List Sample)) : AnyIt :=
+  match reps with
+  | [] => mkF fixed f [] []
+  | r :: rs => mkF fixed f r rs
+
+/-- `dedup.NewSeriesSet(set, f, penalty)` over the given input series: label set and iterator of
+    every output series, in order -/
+def dedupSet (fixed : Bool) (f : String) (rl : List String) (series : List (List Lbl × List Sample)) :
+    List (List Lbl × AnyIt) :=
+  (groupAdj (stripAll rl series)).map fun g => (g.1, groupIt fixed f g.2)
+
 end Thanos.Dedup
